@@ -56,7 +56,29 @@ def run(ctx):
         prim = lambda i: i.op == 'call' and set(cg.callees(f, i)) & {'ext:ec_encode_data', 'ext:ec_init_tables'}
         if not inv or not dm:
             raise AnalysisBroken(f'anchor vanished: {fname} lacks inversion / decode matrix selection')
-        for call, what in ((inv[0], 'gf_invert_matrix'), (dm[0], 'isa_l_get_decode_matrix')):
+        # the status result of the inversion is followed by value: whatever the test looks like (< 0, != 0, >= 0 with a flag ...),
+        # a negative status must end in a negative return without reaching table expansion / encode
+        from ..oblig import simulate as _sim
+        primcalls = {i.callee for i in f.insts() if prim(i)}
+        call = inv[0]
+        inst = f'{fname}: failure of gf_invert_matrix'
+        problem = None
+        for v in (-1, -7):
+            for kind, val, trail in _sim(f, call, v, stop_calls=primcalls):
+                if kind == 'event':
+                    problem = (f'gf_invert_matrix failure reaches {"/".join(sorted(cg.callees(f, val)))}', val.loc,
+                               f'after gf_invert_matrix failed ({v}) the code still reaches {sorted(cg.callees(f, val))}')
+                elif kind == 'ret' and (val is None or val >= 0):
+                    problem = problem or (f'gf_invert_matrix failure returns {val}', call.loc, f'when gf_invert_matrix returns {v} the function returns {val} (not a negative value)')
+                elif kind == 'limit':
+                    problem = problem or ('undecided', call.loc, 'step limit')
+        if problem is None:
+            r.ok(inst + ' => negative return, primitives not called', func=f.name, loc=call.loc)
+        elif problem[0] == 'undecided':
+            r.undecided(inst, loc=call.loc, msg=problem[2])
+        else:
+            r.fail(inst, func=f.name, sig=problem[0], loc=problem[1], msg=problem[2])
+        for call, what in ((dm[0], 'isa_l_get_decode_matrix'),):
             edge = None
             for b in f.order:
                 t = b.insts[-1]
